@@ -13,7 +13,7 @@
    Partial: convergence of power iteration (a limit statement) is not proved; selection by magnitude holds only when the
    sliced order is the magnitude order - for the pinned code it is not (refutation witnesses below). *)
 From Coq Require Import ZArith QArith Qcanon List Arith Bool Sorting.Permutation.
-From Core Require Import Base FieldBase PySlice C09_MatAlg C10_Model C10_Proofs C10_Power C10_Check.
+From Core Require Import Base FieldBase PySlice C09_MatAlg C10_Model C10_Proofs C10_Power C10_Check C16_Proofs.
 Import ListNotations.
 
 Definition C10_full : Prop :=
@@ -48,6 +48,12 @@ Theorem C10_eig_independent : forall (R : Type) (RR : Ring R) (FF : Field R) n (
   (forall i, (i < n)%nat -> sum (length idx) (fun j => rmul (V i (nth j idx 0%nat)) (c j)) = r0) -> forall j, (j < length idx)%nat -> c j = r0.
 Proof. intros R RR FF. exact (eig_dense_independent (R:=R)). Qed.
 Print Assumptions C10_eig_independent.
+
+(* self-adjoint A: eigh's V has orthonormal columns (V^H V = I), and so have the returned (sliced) vectors *)
+Theorem C10_eig_orthonormal : forall (R : Type) (RR : Ring R) (CR : CRing R) (FF : Field R) n r (V : fm (R:=R)) idx,
+  orthocols n r V -> NoDup idx -> (forall x, In x idx -> (x < r)%nat) -> orthocols n (length idx) (fun i j => V i (nth j idx 0%nat)).
+Proof. intros R RR CR FF. exact (orthocols_take (R:=R)). Qed.
+Print Assumptions C10_eig_orthonormal.
 
 (* selection: with the sliced spectrum ascending for a preorder le, 'LM' returns the k largest, 'SM' the k smallest for le.
    For eigh le is the ALGEBRAIC order; the property asks for magnitude: see C10_eigh_LM_refuted *)
